@@ -29,7 +29,7 @@ LEVEL_TEXT = ('For each space (type subset x colour subset x grid/view shape; qu
               'trajectories of all shipped configs via OuterEnv and GymEnvironment (all three representation names).')
 LEVEL_NOTE = 'Members use declared colours only; shapes >= 2x2 and odd view widths as stated. Trusted: the array comparison.'
 SHARDS = {'quick': 4, 'thorough': 16}
-BUDGET_S = {'quick': 60, 'thorough': 900}
+BUDGET_S = {'quick': 300, 'thorough': 2400}
 RULE = ('case = (space, representation name, member state or observation). non-trivial = member contains an object with the '
         'maximal type index, status or colour of its space, or the agent in a corner; distinct by (space, representation, deep '
         'member encoding).')
